@@ -14,6 +14,7 @@ import (
 
 	"github.com/oasisprotocol/curve25519-voi/primitives/ed25519"
 	"github.com/oasisprotocol/curve25519-voi/primitives/x25519"
+	"github.com/oasisprotocol/curve25519-voi/zzverif/entropy"
 	"github.com/oasisprotocol/curve25519-voi/zzverif/gen"
 	"github.com/oasisprotocol/curve25519-voi/zzverif/mon"
 	"github.com/oasisprotocol/curve25519-voi/zzverif/ref"
@@ -347,7 +348,16 @@ func edToMontU(p ref.Pt) []byte {
 	return ref.LE32(u)
 }
 
+// entropyCase: the entropy-consuming APIs of this property behind differently behaving readers (package entropy).
+func entropyCase(r *mon.Run, c Case) {
+	entropy.Check(r, "C07", r.Rng(fmt.Sprintf("c07/entropy/%d", c.Idx)), func(sig, what string) { r.Violate(sig, what, c) })
+}
+
 func runCase(r *mon.Run, c Case) {
+	if c.Kind == "entropy" {
+		entropyCase(r, c)
+		return
+	}
 	x := &ctx{r}
 	switch c.Kind {
 	case "pair":
@@ -448,6 +458,9 @@ func main() {
 	r.Sample("case", cases[len(cases)-1])
 	if r.HistGet("pair/result-zero=true/u-bit255=false") == 0 || r.HistGet("pair/result-zero=true/u-bit255=true") == 0 {
 		r.Inconclusive("no low-order input observed")
+	}
+	for i := 0; i < r.Pick(6, 60); i++ {
+		entropyCase(r, Case{Kind: "entropy", Idx: i})
 	}
 	r.Finish()
 }
